@@ -10,8 +10,9 @@
     - [is_sequence_set], [matches_sequence_set], [search_set]
                          internal/server/message/message.go (SEARCH)
     - [uidsearch_set]    internal/server/uid/uid.go handleUIDSearch, branch "UID "
-    - [copy_set_arg]     internal/server/connection.go:79 + HandleCopy: which
-                         element of [parts] the handler takes as the set
+    - [dispatch_copy_args], [copy_set_arg], [plain_copy]
+                         internal/server/connection.go (case "COPY") + HandleCopy:
+                         which element of [parts] the handler takes as the set
 
     The mailbox enters as the list of its UIDs in ascending order (the rows of
     message_mailbox for the mailbox, ORDER BY uid).  Go [int] is int64;
@@ -138,7 +139,9 @@ Definition fetch_inline (sequence : str) (uids : list Z) : option (list (Z * Z))
     else
       match atoi sequence with
       | None => None
-      | Some n => Some (label_from 1 (sql_limit_offset uids 1 (wrap64 (n - 1))))   (* msgNum-1 in int64 *)
+      | Some n =>
+        (* parseErr != nil || msgNum < 1 => BAD; start, useRange = msgNum, true *)
+        if n <? 1 then None else Some (label_from n (sql_limit_offset uids 1 (n - 1)))
       end
   end.
 
@@ -188,15 +191,17 @@ Definition uidsearch_set (set : str) (uids : list Z) : list Z :=
   else [].
 
 (** ---- dispatcher + HandleCopy ---- *)
-(** connection.go: [message.HandleCopy(s, conn, tag, parts, state)] with
-    [parts = strings.Fields(line)] (tag first); HandleCopy: [len(parts) < 3]
-    => BAD, [sequenceSet := parts[1]]. [None] = BAD. *)
-Definition copy_set_arg (parts : list str) : option str :=
-  if Nat.ltb (length parts) 3 then None else nth_error parts 1.
+(** connection.go: [message.HandleCopy(s, conn, tag, parts[1:], state)] with
+    [parts = strings.Fields(line)] (tag first, at least two fields);
+    HandleCopy: [len(parts) < 3] => BAD, [sequenceSet := parts[1]].
+    [None] = BAD. *)
+Definition dispatch_copy_args (parts : list str) : list str := tl parts.      (* parts[1:] *)
+Definition copy_set_arg (hparts : list str) : option str :=
+  if Nat.ltb (length hparts) 3 then None else nth_error hparts 1.
 
 (** plain COPY as dispatched: [None] = BAD, [Some l] = sequence numbers copied *)
 Definition plain_copy (parts : list str) (total : Z) : option (list Z) :=
-  match copy_set_arg parts with
+  match copy_set_arg (dispatch_copy_args parts) with
   | None => None
   | Some set =>
     match parse_seqset_db set total with
